@@ -788,6 +788,13 @@ func hostC16(o *out, replay string) {
 		impl, pred := c16Chatty(proto, i)
 		o.emit("!C16.chatty proto="+proto, impl, pred)
 	}
+	// a binary built on ServeMux, started by hand (no cookie / a wrong one), with every kind of command line
+	for _, args := range [][]string{{}, {"kit"}, {"nosuch"}, {"--help"}, {"kit", "extra"}} {
+		for _, ce := range [][]string{{}, {kitCookieKey + "=" + kitCookieVal + "x"}, {kitCookieKey + "="}} {
+			impl, pred := runServeMuxRefusal(args, ce)
+			o.emit(fmt.Sprintf("!C16.servemux args=%s cookie=%s", hxs(strings.Join(args, " ")), hxs(strings.Join(ce, " "))), impl, pred)
+		}
+	}
 	o.note("C16 launches=%d (real plugin subprocesses, exec directly) outcomes=%v six-field=%d seven-field=%d with-certificate=%d",
 		len(cases), byOutcome, served6, served7, withCert)
 	o.note("C16 cookie classes: %v", byCookie)
